@@ -69,9 +69,11 @@ public:
   {
     for (DataList *data = head_.get(); data != nullptr; data = data->next_.get())
     {
-      if (key.size() == data->key_length_)
+      // A node built from an empty collection carries no key (key_ == nullptr): it binds
+      // nothing and must not be mistaken for a binding of the empty key.
+      if (data->key_ != nullptr && key.size() == data->key_length_)
       {
-        if (std::memcmp(key.data(), data->key_, data->key_length_) == 0)
+        if (key.size() == 0 || std::memcmp(key.data(), data->key_, data->key_length_) == 0)
         {
           return data->value_;
         }
@@ -129,7 +131,10 @@ private:
     {
       key_        = new char[key.size()];
       key_length_ = key.size();
-      std::memcpy(key_, key.data(), key.size() * sizeof(char));
+      if (key_length_ > 0)
+      {
+        std::memcpy(key_, key.data(), key_length_ * sizeof(char));
+      }
       next_  = nostd::shared_ptr<DataList>{nullptr};
       value_ = value;
     }
